@@ -358,6 +358,7 @@ def _run(ctx):
         timed("dict_eq", stream_dict_eq, ctx, pq, w)
         timed("boundary", stream_boundary, ctx, pq, root, enums, structs)
         timed("known", stream_known, ctx, pq, root, enums, structs, specs_names)
+        minimal_witnesses(ctx, w)
         timed("index", stream_index, ctx, pq, root, enums, structs, specs_names)
         timed("struct_sizes", stream_struct_sizes, ctx, pq, w, enums, structs, specs_names)
         timed("files", stream_files, ctx, pq)
@@ -663,10 +664,21 @@ def stream_foreign_wide(ctx, pq, w, root, enums, structs, specs_names):
         ctx.correspondence("from_buffer(spec-encoded, whole IDL) ~ impl model c_from_buffer", case, T.canon(m_r),
                            ["ok", T.canon(T.pv(y)), len(b0) - pos])
         if b1 != b0 or printed:
+            pinned = None
             if regions:
+                # a known finding explains the difference only if the bytes are EXACTLY what the model of the pinned serialiser
+                # (ids 1..13, nibbles 5/6 for every int, 0x00 for an empty list) produces for the parsed object
+                mp = pq.call("c_ser", T.pv(y))
+                pinned = sym(mp[0]) == "ok" and bytes(mp[1]) == b1
+                ctx.correspondence("to_bytes(re-serialised foreign object) ~ impl model c_ser (the pinned defects, nothing else)", case,
+                                   canon_out(mp), ["ok", "#" + b1.hex()])
+            if regions and pinned:
                 comp = "write_list" if regions[0] == "empty-list-element-type" else "write_thrift"
                 ctx.fail({"component": comp, "kind": regions[0], "stream": "foreign-wide", "regions": regions}, case,
                          "re-serialisation changes the bytes (%d -> %d)" % (len(b0), len(b1)))
+            elif regions:
+                ctx.fail({"component": "reserialise", "kind": "bytes-differ-beyond-known-defects", "stream": "foreign-wide", "root": tr[1], "regions": regions}, case,
+                         "to_bytes(from_buffer(b)) differs from b AND from what the known defects (%s) produce (%d vs %d bytes)" % ("+".join(regions), len(b1), len(b0)))
             else:
                 ctx.fail({"component": "reserialise", "kind": "bytes-differ", "stream": "foreign-wide", "root": tr[1]}, case,
                          "to_bytes(from_buffer(b)) != b for spec-encoded b (%d vs %d bytes) %s" % (len(b1), len(b0), printed))
@@ -866,6 +878,23 @@ def stream_known(ctx, pq, root, enums, structs, specs_names):
     known_case(ctx, pq, root, tr, {"component": "to_bytes", "kind": "overflow"}, expect_model="oob")
 
 
+def minimal_witnesses(ctx, w):
+    """the minimal witnesses of props/C10.v (C10_*_minimal_refuted) and their correctly handled neighbours, on the compiled code"""
+    for name, op, payload, want in [
+            ("field 14 dropped: {14: 0}", "to_bytes", ("KeyValue", {14: 0}), bytes([0])),
+            ("field 13 kept: {13: 0}", "to_bytes", ("KeyValue", {13: 0}), bytes([214, 0, 0])),
+            ("i8 re-serialised as i64: 13 00 00", "reserialise", ("KeyValue", bytes([19, 0, 0])), bytes([22, 0, 0])),
+            ("i16 re-serialised as i64: 14 00 00", "reserialise", ("KeyValue", bytes([20, 0, 0])), bytes([22, 0, 0])),
+            ("i32 re-serialised identically: 15 00 00", "reserialise", ("KeyValue", bytes([21, 0, 0])), bytes([21, 0, 0])),
+            ("empty list written as 00: {1: []}", "to_bytes", ("KeyValue", {1: []}), bytes([25, 0, 0])),
+            ("non-empty struct list re-serialised identically: 19 1c 00 00", "reserialise", ("KeyValue", bytes([25, 28, 0, 0])), bytes([25, 28, 0, 0]))]:
+        r = w.call(op, payload)
+        got = (r[1] if op == "to_bytes" else r[1][3]) if r[0] == "ok" else list(r[:2])
+        ctx.case({"stream": "minimal-witness", "what": name})
+        ctx.correspondence("minimal witnesses of C10_*_minimal_refuted ~ compiled cencoding", {"what": name},
+                           want.hex(), got.hex() if isinstance(got, (bytes, bytearray)) else got)
+
+
 def known_case(ctx, pq, root, tr, cls, expect_model=None):
     """oracle only (plus the impl model's prediction): from_buffer(to_bytes(x)) == x and strict IDL parse of to_bytes(x) == the tree"""
     case = {"stream": "known-finding-confirmation", "root": tr[1], "tree": tree_json(tr), "class": cls}
@@ -888,6 +917,9 @@ def known_case(ctx, pq, root, tr, cls, expect_model=None):
     idl = pq.call("idl_dec", tr[1], 0, 0, 1, b)
     conf = sym(idl[0]) == "ok" and T.canon(idl[1]) == T.canon(to_tv(tr)) and idl[2] == 0
     if not eq or not conf or b != want:
+        if sym(m[0]) == "ok" and bytes(m[1]) != b:
+            # not what the model of the pinned (defective) serialiser produces: something else than the known defect
+            cls = dict(cls, kind="differs-from-pinned-model(" + cls["kind"] + ")")
         ctx.fail(dict(cls, outcome="returned", over=len(want) - cap), case,
                  "x == from_buffer(to_bytes(x)): %s; strict IDL parse gives the tree: %s (%s); bytes %d, specification encoding %d" % (
                      eq, conf, sym(idl[0]), len(b), len(want)))
@@ -1043,6 +1075,8 @@ def stream_index(ctx, pq, root, enums, structs, specs_names):
             if r[0] != "ok" or r[1] != b0:
                 kind = "list-bool" if lb else ("list-i64-as-i32" if l64 else ("i8-i16-as-i32-i64" if small else
                        ("empty-list-element-type" if has(tr, lambda t: t[0] == "list" and not t[2]) else "wrong-bytes")))
+                if canon_out(m) != want:
+                    kind = "differs-from-pinned-model(" + kind + ")"      # not (only) the known defect: never suppressed
                 comp = "write_thrift" if kind == "i8-i16-as-i32-i64" else "write_list"
                 ctx.fail({"component": comp, "kind": kind, "stream": "index-structs", "root": tr[1]}, case,
                          "to_bytes of the IDL-typed object is not the specification's encoding (%s)" % (r[0] if r[0] != "ok" else "%d vs %d bytes" % (len(r[1]), len(b0))))
